@@ -11,7 +11,7 @@
    (ii) IMPLEMENTATION-SHAPED part: IPr transcribes the String methods of ast/ast.go (which operands
         they parenthesise, which operators they spell).  Parse(IPr(t)) = t is evaluated by TLC over the
         same space; its counterexamples are *predictions* (diagnostic), replayed into the real code.
-   (iii) Judge operators shared with Trace_ExprPrint: Abstract (real dump -> model tree), Diverge/Sig. *)
+   (iii) Judge operators shared with Trace_ExprPrint: Abstract (real dump -> model tree), Diverge, Elided. *)
 EXTENDS Integers, Sequences, FiniteSets
 
 Nd(k, v, c) == [k |-> k, v |-> v, c |-> c]
@@ -312,16 +312,17 @@ Abstract(T) ==
          FuncLit(Abstract(T.c[2]))
     [] OTHER -> Nd(T.k, T.v, AbsAll(T.c))
 
-\* first point (pre-order) where two trees differ; p = kind of the nearest non-list ancestor
+\* first point (pre-order) where two trees differ: kind (and operator) on the left, kind on the right;
+\* a difference in a list of children is reported as <<owner kind, "list">>
 OpKinds == {"BinaryOperator", "UnaryOperator", "Assignment", "ChanType"}
 RECURSIVE Diverge(_, _, _)
 Diverge(a, b, p) ==
   IF a.k # b.k \/ a.v # b.v \/ Len(a.c) # Len(b.c)
-  THEN [k1 |-> a.k, v1 |-> IF a.k \in OpKinds THEN a.v ELSE <<>>, k2 |-> b.k, p |-> IF a.k = "list" THEN p ELSE "-"]
+  THEN IF a.k = "list" THEN [k1 |-> p, v1 |-> <<>>, k2 |-> "list"]
+       ELSE [k1 |-> a.k, v1 |-> IF a.k \in OpKinds THEN a.v ELSE <<>>, k2 |-> b.k]
   ELSE LET D == {i \in 1..Len(a.c) : a.c[i] # b.c[i]} IN
-       IF D = {} THEN [k1 |-> "equal", v1 |-> <<>>, k2 |-> "equal", p |-> "-"]
-       ELSE LET i == CHOOSE i \in D : \A j \in D : i <= j IN
-            Diverge(a.c[i], b.c[i], IF a.k = "list" THEN p ELSE a.k)
+       IF D = {} THEN [k1 |-> "equal", v1 |-> <<>>, k2 |-> "equal"]
+       ELSE LET i == CHOOSE i \in D : \A j \in D : i <= j IN Diverge(a.c[i], b.c[i], IF a.k = "list" THEN p ELSE a.k)
 
 \* nodes whose String form is a description, not source (documented in ast.go: "func literal",
 \* "{...}" unless the test-only expandedPrint is set): the property is read as not covering them
